@@ -126,14 +126,14 @@ class Operations(Unit):
     name = "enum/operations"
     properties = ("C18",)
     level = "bounded"
-    bound_note = "initial mappings of 0..3 entries, every operation sequence of length <= 2 (quick) / 3 (thorough) over add/remove/lookup on names a, b, c; values are four symbolic integers (any values, possibly equal)"
+    bound_note = "initial mappings of 0..3 entries, every operation sequence of length <= 3 (quick) / 4 (thorough) over add/remove/lookup on names a, b, c; values are four symbolic integers (any values, possibly equal)"
 
     def functions(self):
         E = enummod().Enum
         return [E.__getitem__, E.add, E.remove, E.keys.fget, E.__new__, E.__init__]
 
     def cases(self, tier):
-        L = 2 if tier == "quick" else 3
+        L = 3 if tier == "quick" else 4
         out = []
         for init in (0, 1, 2, 3):
             for form in ("dict", "kwargs"):
